@@ -94,6 +94,13 @@ def explainRepeat : String :=
 def explainAltPair : String :=
   "strictness: the verdict on the same bytes under a second (utg, wg) pair does not follow that pair"
 
+/-- the answer is a function of the JSON document, not of the white space around it
+(`ws` = the harness saw the padded bytes answered differently from the bytes themselves) -/
+def specWhitespace (ws : Bool) : Bool := !ws
+
+def explainWs : String :=
+  "strictness: the answer depends on insignificant white space (on the size of the message)"
+
 def explainOob : String :=
   "no-crash: short [32]byte array: the decoder's zero-fill wrote outside the array (decoded value differs from the same message with explicit zeros)"
 
